@@ -77,7 +77,7 @@ class RuleResult:
 
     def floor(self, what: str, n: int, minimum: int):
         self.counts[what] = n
-        if n < minimum:
+        if n < minimum and not self.findings:   # findings already explain a low count: report them, not the floor
             raise AnalysisError(self.rule, f'{what}: matched {n} instances, floor confirmed by hand is {minimum} (rule would pass vacuously)')
 
 
